@@ -296,9 +296,37 @@ def extracted_timer_run(repo):
                              [("RqTimeout", "(d : Q)")], call_cons=[("CoCallback", "")], types="timer_run")
 
 
+# Timer.__init__: the check of the timeout, the first arming, and the NORMALISATION OF `args` (is None / isinstance(args,
+# (list, tuple)) are observations; the rebinding of the local `args` and the store into self.args are effects, in program
+# order); Gen/Extracted_timer_init.v; bridged to timer0 of Elem/Timer.v and py_stored_args of Elem/TimerArgs.v by
+# coq/Elem/TimerInitBridge.v; obligations in Props/C19_BridgeInit.v.  Any other test on `args` (isinstance(args, Sequence),
+# `args or []`, hasattr(args, "__iter__") ...) does not match the observation table: the translation fails closed.
+TIMER_INIT_CONS = [("IxRaiseValueError", ""), ("IxArgsEmpty", ""), ("IxArgsWrap", ""), ("IxStoreArgs", ""), ("IxStoreKwargs", ""),
+                   ("IxNewProc", "")]
+TIMER_INIT_READS = [("self.env.now", "now", "Q"), ("timeout", "tau", "Q"),
+                    ("math.nextafter(self.env.now, math.inf)", "next_instant", "Q"),
+                    ("args is None", "args_is_none", "bool"),
+                    ("isinstance(args, (list, tuple))", "args_is_list_or_tuple", "bool")]
+TIMER_INIT_FX = [('raise ValueError("timeout should be positive value")', "IxRaiseValueError", []),
+                 ("args = []", "IxArgsEmpty", []), ("args = [args]", "IxArgsWrap", []), ("self.args = args", "IxStoreArgs", []),
+                 ("self.kwargs = kwargs if kwargs is not None else {}", "IxStoreKwargs", []),
+                 ("self.proc = env.process(self.run(env))", "IxNewProc", [])]
+TIMER_INIT_IGNORE = ["self.env = env", "self.timeout_callback = timeout_callback", "self.auto_restart = auto_restart"]
+
+
+def extracted_timer_init(repo):
+    import os
+    from vlib import translate as tr
+    path = os.path.join(repo, "onl", "utils", "timer.py")
+    spec = tr.FnSpec(path, "Timer", "__init__", "gen_Timer_init", reads=TIMER_INIT_READS, effects=TIMER_INIT_FX, inline=["_arm"],
+                     ignore_stmts=TIMER_INIT_IGNORE)
+    return tr.gen_module("onl/utils/timer.py: Timer.__init__", "timer_init_st", "ti_", TIMER_STATE, "timer_init_fx", TIMER_INIT_CONS,
+                         [spec])
+
+
 class C19(Prop):
     id = "C19"
-    props_file = ["Props/C19.v", "Props/C19_Bridge.v", "Props/C19_BridgeRun.v", "Props/C19_Examples.v", "Props/C19_Args.v"]
+    props_file = ["Props/C19.v", "Props/C19_Bridge.v", "Props/C19_BridgeRun.v", "Props/C19_Examples.v", "Props/C19_Args.v", "Props/C19_BridgeInit.v"]
     coq_imports = ["From ONL Require Import Base.Cmp Elem.Timer Elem.TimerArgs."]
     n_quick = 600
     n_thorough = 12000
@@ -333,6 +361,11 @@ class C19(Prop):
         "TProcInterrupt of the automaton equal to the generated functions (the except-Interrupt arm = the resume-with-Interrupt "
         "function; the callback a call-out after which the fields are re-read); that the kernel resumes the generator exactly "
         "at these steps is K1/K2 plus the per-run correspondence",
+        "vlib/translate.py also regenerates coq/Gen/Extracted_timer_init.v from Timer.__init__ (tables TIMER_INIT_*): the tests "
+        "`args is None` and `isinstance(args, (list, tuple))` are observations, the rebinding of `args` and the store into self.args "
+        "effects; C19_gen_timer_init_* (Props/C19_BridgeInit.v) prove the stored value = py_stored_args and the fields = timer0; that "
+        "the two observations mean what Elem/TimerArgs.v says (which Python objects are instances of list or tuple) is checked by the "
+        "per-run comparison of self.args with py_norm_args over objects of every shape",
     ]
     assumptions = [
         "timeouts given to Timer() and restart() are positive (the constructor enforces it; restart(tau<=0) never fires and is outside C19)",
@@ -350,6 +383,7 @@ class C19(Prop):
         from vlib import translate as tr
         tr.write_if_changed(os.path.join(fw.COQ, "Gen", "Extracted_timer.v"), extracted_timer(fw.REPO))
         tr.write_if_changed(os.path.join(fw.COQ, "Gen", "Extracted_timer_run.v"), extracted_timer_run(fw.REPO))
+        tr.write_if_changed(os.path.join(fw.COQ, "Gen", "Extracted_timer_init.v"), extracted_timer_init(fw.REPO))
 
     # ---- generation -----------------------------------------------------------------------------
     def gen_case(self, rng, tier):
